@@ -7,7 +7,7 @@ switch is re-armed at the top of `solve()`).
 `Ops V` are abstract per-level operators on an arbitrary vector type `V`; `exec` interprets an instruction list over a
 memory `Ref → V`.  The loop is a state machine with explicit fuel `maxit`.
 -/
-namespace Cycle
+namespace MGCycle
 
 structure Ops (V : Type) where
   smooth : Nat → V → V → V            -- level, x, rhs ↦ new x
@@ -111,4 +111,4 @@ def solve {V R : Type} (o : Ops V) (n : NormOps V R) (c : SolveCfg R) (s : Obj V
   let m0 := exec o (initSolution c.cyc c.fmg c.fmgKind c.fmgIters (c.extrapMode != 0) fgs (c.cyc.levels - 1)) s.mem
   loop o n c c.maxit { mem := m0, fgs := fgs, norms := [], iters := 0, stoppedEarly := false }
 
-end Cycle
+end MGCycle
